@@ -335,6 +335,8 @@ pub fn run(ctx: &mut Ctx) {
         *ctx.distribution.entry("time fields swept in place (both modes)".into()).or_insert(0) = nf;
         ctx.exhaustive_domains.push("every scaled time field of every packet kind in place x boundary wire values x both size modes".into());
     }
+    // … and laid out by the specification rather than by the crate's own declarations
+    crate::c02::time_fields_for_c15(ctx);
     for ms in [0u64, 1, 10, 999, 65534, 65535, 65536, 65537, 70000, 131071, 131072, 655350, 1 << 32, u64::MAX / 1000] { builder_interval_case(ctx, ms); }
     // all 65536 values of 16-bit time fields
     for &(w, s) in &COMBOS[..2] {
